@@ -209,7 +209,7 @@ fn final_spec() -> impl Strategy<Value = OpSpec> {
 }
 
 pub fn check_tree(c: &Ctx, specs: &[OpSpec]) -> CaseResult {
-    let cfg = GenCfg { names: NAMES3, avoid_through_link: true, plain_spelling: true, wild: false, handles: false };
+    let cfg = GenCfg { names: NAMES_PFX, avoid_through_link: true, plain_spelling: true, wild: false, handles: false };
     let r = c01::check_history(c, specs, &cfg, &c01::OPTS, "ops");
     r
 }
@@ -230,7 +230,7 @@ fn exec_readonly_agree(ops: &[Op]) -> CaseResult {
 }
 
 pub fn run(c: &Ctx) {
-    c.set_rule("(a) exhaustive on one entry: every start permission value 0..=0o777 (512) x every well-formed single clause of the grammar [dfa]:[ugoa]+[-+=][rwx]+ (945) x {file, dir} on Memfs, link->file / link->dir with 64 start values; a seeded sample (quick 1/40, thorough all 945^2 on 16 start values) of double clauses incl. readonly() and secure(); malformed expressions: every single-character deletion / substitution of a sample of well-formed ones + random strings; the same single clauses on a tmpfs Stdfs sandbox for 16 start values; octal values 0..=0o777 on file and dir. Oracle: reference interpreter of the documented grammar applied clause by clause to entries of the matching kind; type bits preserved; links and (without follow) their targets untouched; malformed first clause => Err and unchanged; is_exec/is_readonly == mode bits. (b) random trees (dirs, files, links incl. dangling, various modes/owners) + one chmod/chmod_b/chown/chown_b with every option combination (all/dirs/files/sym x recurse x follow; uid/gid/owner x recurse x follow): full tree equality with the reference model (exactly the targeted entries changed). Non-trivial = expression whose first clause targets the other kind, or a tree with a link, or value 0; distinct by case.");
+    c.set_rule("(a) exhaustive on one entry: every start permission value 0..=0o777 (512) x every well-formed single clause of the grammar [dfa]:[ugoa]+[-+=][rwx]+ (945) x {file, dir} on Memfs, link->file / link->dir with 64 start values; a seeded sample (quick 1/40, thorough all 945^2 on 16 start values) of double clauses incl. readonly() and secure(); malformed expressions: every single-character deletion / substitution of a sample of well-formed ones + random strings; the same single clauses on a tmpfs Stdfs sandbox for 16 start values; octal values 0..=0o777 on file and dir. Oracle: reference interpreter of the documented grammar applied clause by clause to entries of the matching kind; type bits preserved; links and (without follow) their targets untouched; malformed first clause => Err and unchanged; is_exec/is_readonly == mode bits. (b) random trees (dirs, files, links incl. dangling, various modes/owners) + one chmod/chmod_b/chown/chown_b with every option combination (all/dirs/files/sym x recurse x follow; uid/gid/owner x recurse x follow): full tree equality with the reference model (exactly the targeted entries changed). (c) two hand-made trees (prefix-named sibling directories linked to each other, links to files, dirs, ancestors and nothing; non-default modes and owners) x every path x every chmod_b / chown_b option combination, same oracle. Non-trivial = expression whose first clause targets the other kind, or a tree with a link, or value 0; distinct by case.");
     c.assume("symbolic expressions applied through followed links and later-clause malformation only require the failing entry to be unchanged (DESIGN 6.3)");
     let cl = clauses();
     c.note("single_clauses", cl.len());
@@ -379,6 +379,61 @@ pub fn run(c: &Ctx) {
         }
     });
     c.set_exhaustive(true);
+    // (c) hand-made trees (prefix-named siblings linked to each other, links to files / dirs / ancestors,
+    // non-default modes and owners) x every builder option combination on every path, against the model
+    {
+        let d = |p: &str, m: u32| Op::MkdirM(p.to_string(), m);
+        let f = |p: &str| Op::WriteAll(p.to_string(), b"x".to_vec());
+        let l = |a: &str, b: &str| Op::Symlink(a.to_string(), b.to_string());
+        let trees: Vec<Vec<Op>> = vec![
+            vec![d("/a", 0o750), f("/a/f"), d("/a/sub", 0o700), d("/ab", 0o755), f("/ab/g"), l("/ab/peer", "/a"), l("/ab/lf", "/a/f"), d("/b", 0o711), d("/b/a", 0o755), l("/b/a/up", "/b"), Op::Chown("/a/f".into(), 7, 8)],
+            vec![d("/data1", 0o755), f("/data1/x"), d("/data10", 0o755), l("/data10/peer", "/data1"), d("/data10/in", 0o700), l("/data10/in/back", "/data10"), l("/dang", "/nope")],
+        ];
+        let mut cases: Vec<Vec<Op>> = vec![];
+        for t in &trees {
+            let paths: Vec<String> = {
+                let m = crate::props::c08::build_model(t);
+                let mut v: Vec<String> = m.t.nodes.keys().cloned().collect();
+                v.push("/nope".into());
+                v
+            };
+            for p in &paths {
+                for rec in [false, true] {
+                    for follow in [false, true] {
+                        for sel in [ChmodSel::All(0o640), ChmodSel::Dirs(0o701), ChmodSel::Files(0o604), ChmodSel::Sym("d:o+w,f:g-r".into()), ChmodSel::Sym("a:a-x".into())] {
+                            let mut v = t.clone();
+                            v.push(Op::ChmodB(p.clone(), ChmodOpt { sel, recursive: rec, follow }));
+                            cases.push(v);
+                        }
+                        for (u, g) in [(Some(5), None), (None, Some(6)), (Some(5), Some(6))] {
+                            let mut v = t.clone();
+                            v.push(Op::ChownB(p.clone(), ChownOpt { uid: u, gid: g, recursive: rec, follow }));
+                            cases.push(v);
+                        }
+                    }
+                }
+                let mut v = t.clone();
+                v.push(Op::Chmod(p.clone(), 0o600));
+                cases.push(v);
+                let mut v = t.clone();
+                v.push(Op::Chown(p.clone(), 9, 10));
+                cases.push(v);
+            }
+        }
+        par_for(cases.len() as u64, 16, |i| {
+            let ops = &cases[i as usize];
+            mark("ops", &serde_json::to_string(ops).unwrap());
+            c.eval(1);
+            c.nontrivial(fp(&format!("{:?}", ops)));
+            c.class("directed-tree-x-options");
+            if i % 211 == 0 {
+                c.sample(|| json!({"kind":"ops","last": ops.last()}));
+            }
+            let r = run_ops(ops, &c01::OPTS).and_then(|_| exec_readonly_agree(ops)).map_err(|f| f.with_case("ops", json!(ops)));
+            c.judge("ops", &json!(null), r);
+        });
+        c.note("directed_tree_option_cases", cases.len());
+    }
     // (b) trees x options against the reference model
     let n = c.tier.pick(8_000, 200_000);
     run_proptest(
@@ -394,7 +449,7 @@ pub fn run(c: &Ctx) {
             let r = check_tree(c, specs);
             if r.is_ok() {
                 // cheap extra oracle on the same history
-                let cfg = GenCfg { names: NAMES3, avoid_through_link: true, plain_spelling: true, wild: false, handles: false };
+                let cfg = GenCfg { names: NAMES_PFX, avoid_through_link: true, plain_spelling: true, wild: false, handles: false };
                 let mut ex = 0;
                 let (st, _) = run_specs(specs, &cfg, &StepOpts { model_compare: false, api_view: false }, &mut ex);
                 return exec_readonly_agree(&st.ops).map_err(|f| f.with_case("ops", json!(st.ops)));
